@@ -280,6 +280,13 @@ func (h HView) Header() http.Header {
 	if h.RangeLine != "" {
 		hd.Add("Range", h.RangeLine)
 	}
+	// a quarter of the views that HAVE a Cache-Control field also carry the HTTP/1.0 field "Pragma: no-cache": beside
+	// Cache-Control it has no meaning (RFC 9111 5.4) and the decision is unchanged. Without any Cache-Control field it
+	// IS the origin's no-cache mark — net/http itself rewrites it into "Cache-Control: no-cache" when it reads the
+	// response — so that combination is not generated under the views' own expectation.
+	if k := h.Key(); len(h.CC) > 0 && len(k)%4 == 1 {
+		hd.Add("Pragma", "no-cache")
+	}
 	return hd
 }
 
